@@ -1071,3 +1071,8 @@ pub fn replay(sub: &str, case: &Value) -> Result<(), Fail> {
         _ => Err(Fail::new("replay-unknown-sub", sub.to_string())),
     }
 }
+
+pub fn fuzz_targets() -> Vec<crate::fuzz::Target> {
+    use crate::fuzz::from_strategy;
+    vec![from_strategy("c14_registry", "C14", "random", hist_strategy, check_hist)]
+}
